@@ -15,6 +15,7 @@
 #include "../../vlib/valloc.h"
 #include "vsched.h"
 #include <sys/wait.h>
+#include <sys/prctl.h>
 #include <climits>
 extern "C" {
 #include <plibsys.h>
@@ -717,6 +718,7 @@ Outcome run_case_forked(const Case &c) {
   fflush(NULL);
   pid_t pid = fork();
   if (pid == 0) {
+    prctl(PR_SET_PDEATHSIG, SIGKILL);
     close(pfd[0]);
     g_out = pfd[1];
     dup2(pfd[1], 2);
@@ -729,6 +731,7 @@ Outcome run_case_forked(const Case &c) {
   while ((n = read(pfd[0], buf, sizeof buf)) > 0) out.append(buf, (size_t)n);
   close(pfd[0]);
   int st = 0; waitpid(pid, &st, 0);
+  if (getenv("VS_DEBUG")) fputs(out.c_str(), stderr);
   bool got = false;
   for (auto &l : vl::split_lines(out)) {
     if (l.rfind("STAT ", 0) == 0) { auto w = vl::split_ws(l); if (w.size() >= 3) o.stats[w[1]] = atol(w[2].c_str()); }
@@ -779,7 +782,8 @@ rc::Gen<Case> genC02() {
                         for (int l = 0; l < L; l++) {
                           bool has_writer = false; int readers = 0;
                           for (auto &t : c.threads) { bool counted = false; for (auto &r : t) { if (r.lock != l) continue; if (r.mode == 'x' || r.mode == 'X') has_writer = true; if (r.mode == 'r' && !counted) { readers++; counted = true; } } }
-                          if (!has_writer && readers >= 2) for (auto &t : c.threads) for (auto &r : t) if (r.lock == l && r.mode == 'r') { r.barrier = l; break; }
+                          // at most ONE rendezvous per program: two barriers taken in different orders by two threads would deadlock the harness itself
+                          if (!has_writer && readers >= 2) { for (auto &t : c.threads) for (auto &r : t) if (r.lock == l && r.mode == 'r') { r.barrier = l; break; } break; }
                         }
                       }
                       return c; });
